@@ -248,9 +248,13 @@ def r4_r5(tree, prog, rep):
         g = build(ofn)
         tests = [x for x in g.nodes(lambda s: isinstance(s, ast.If)) if _is_notin_processed(g.stmt[x].test)]
         calls = g.call_nodes(lambda c: dotted(c.func) == "self._O.got_message")
-        adds = g.call_nodes(lambda c: dotted(c.func) == "self._processed.add" and len(c.args) == 1
-                            and isinstance(c.args[0], ast.Name) and c.args[0].id == "phase")
+        adds = g.call_nodes(lambda c: dotted(c.func) == "self._processed.add" and len(c.args) == 1 and _is_dedup_key(c.args[0]))
         ok = bool(tests) and bool(adds)
+        if ok:
+            # the key that is recorded is the key that is tested
+            keys = {ast.dump(_dedup_key_of_test(g.stmt[t].test)) for t in tests} | {
+                ast.dump(c.args[0]) for a in adds for c in ast.walk(g.stmt[a]) if isinstance(c, ast.Call) and dotted(c.func) == "self._processed.add"}
+            ok = len(keys) == 1
         if ok:
             lab = 'T' if _notin_polarity(g.stmt[tests[0]].test) else 'F'
             ok = not g.guarded_by(tests, calls, lab)
@@ -268,7 +272,22 @@ def _is_notin_processed(t):
     if isinstance(t, ast.UnaryOp) and isinstance(t.op, ast.Not):
         return _is_notin_processed(t.operand)
     return isinstance(t, ast.Compare) and len(t.ops) == 1 and isinstance(t.ops[0], (ast.In, ast.NotIn)) \
-        and isinstance(t.left, ast.Name) and t.left.id == "phase" and is_self_attr(t.comparators[0], "_processed")
+        and _is_dedup_key(t.left) and is_self_attr(t.comparators[0], "_processed")
+
+
+def _is_dedup_key(e):
+    """the de-duplication key: the phase label, alone or together with the side label (a message is only ever opened with the key of
+    its own side label - C02.R2 - so a phase is still delivered at most once: only the peer's real side decrypts)"""
+    if isinstance(e, ast.Name):
+        return e.id == "phase"
+    return isinstance(e, ast.Tuple) and all(isinstance(x, ast.Name) and x.id in ("side", "phase") for x in e.elts) \
+        and any(x.id == "phase" for x in e.elts)
+
+
+def _dedup_key_of_test(t):
+    while isinstance(t, ast.UnaryOp) and isinstance(t.op, ast.Not):
+        t = t.operand
+    return t.left
 
 
 def _notin_polarity(t):
